@@ -438,6 +438,7 @@ func main() {
 		"part 1b: programs in which ONE select statement is in flight several times between operand evaluation and communication: 2-4 goroutines run the same function whose select (1-3 send/receive cases, with/without default) has operands that are calls blocking on a gate, "+
 		"released by the main goroutine in a PRNG-chosen interleaving (deterministic handshake, one ready case or none per worker, own channels per worker); a select re-entered from its own send operand (depth 1-3); 2-6 goroutines x 20-79 iterations of the same select without handshake; result = fold of every worker's chosen case / received value and every channel's final content, compared with the compiled function; "+
 		"go statements whose FUNCTION operand is a non-constant expression (slice/map element, call result, method value of a variable / through a pointer / of an interface, function variable, struct field, closure call result) and whose inputs the caller changes directly after the go statement (2-5 go statements per program, each goroutine reports on its own channel); "+
+		"part 5 (not under -race): 4 (thorough 12) PRNG-sized registry stress programs from 4 families (closure of the creator / of a sibling received over a channel / of a parent worker called by 16-63 short-lived goroutines x 40-79 rounds while other goroutines only start and exit; unsynchronised waves), run repeatedly for 15 s (thorough 120 s) with GOMAXPROCS 8 in a child process whose death (Go runtime fatal error) is a failure with the running program as input, results compared with the compiled function; "+
 		"part 2: order-dependent programs (2-3 senders, 1-2 values each, capacity 0-2) checked against the exhaustively enumerated admissible set; every program with >= 2 goroutines is non-trivial; distinct by SHA-256 of the source")
 	limit := 300 * time.Second // one heartbeat covers the `go build` of the whole oracle batch (> 2 min on a loaded machine)
 	if raceEnabled || a.Thorough() {
@@ -447,6 +448,10 @@ func main() {
 	if mode == "corpus" {
 		runCorpus(rep, 200)
 		rep.Write()
+		return
+	}
+	if mode == "stress" {
+		stressChild(a)
 		return
 	}
 	if mode == "cold" {
@@ -508,8 +513,18 @@ func main() {
 	for k := 0; k < nO; k++ {
 		indep = append(indep, genOverlap(orng, k))
 	}
+	// part 5 (stress.go): registry stress programs, run in a child process; their expected results come from the same oracle batch
+	var stress []prog
+	srng := vh.NewRng(a.Seed*7919 + 17)
+	nS := 4
+	if a.Thorough() {
+		nS = 12
+	}
+	for k := 0; k < nS; k++ {
+		stress = append(stress, genStress(srng, k))
+	}
 	wd.Beat("oracle build")
-	want, err := buildOracle(a, indep)
+	want, err := buildOracle(a, append(append([]prog{}, indep...), stress...))
 	if err != nil {
 		fmt.Println(err)
 		os.Exit(2)
@@ -522,6 +537,22 @@ func main() {
 	}
 	wd2 := vh.NewWatchdog(rep, limit2)
 	wd2.Beat("start")
+	if !raceEnabled {
+		// part 5 runs FIRST: a Go runtime fatal error in the in-process parts below would kill this process together with its
+		// report; when the sacrificial child dies, the failure (with the running program as input) is written and the
+		// in-process parts are skipped
+		wd.Beat("stress child")
+		wd2.Beat("stress child")
+		budget := 15.0
+		if a.Thorough() {
+			budget = 120
+		}
+		if died := runStress(a, rep, stress, want, budget); died {
+			rep.Extra["in_process_parts_skipped_after_child_death"] = true
+			rep.Write()
+			return
+		}
+	}
 	ir := newInterp()
 	procs := []int{1, 2, 4, 8}
 	runs, regBad := 0, 0
@@ -582,6 +613,7 @@ func main() {
 	}
 	runtime.GOMAXPROCS(runtime.NumCPU())
 	if !raceEnabled {
+		wd.Beat("corpus: go-arg-closure")
 		wd2.Beat("corpus: go-arg-closure")
 		runCorpus(rep, 50)
 		wd2.Beat("corpus: cold call")
